@@ -218,7 +218,7 @@ func (g *FnGen) applyContract(s *State, fc *FuncContract, ct *callTarget, args [
 		old := g.heap(pre, k)
 		n := g.fresh(heapName(k)+"_c", "(Array Ref "+k+")")
 		s.heaps[k] = n
-		fr = append(fr, g.frameAxiomPats(pats, k, old, n, pre.next))
+		fr = append(fr, g.frameAxiomPats(pats, k, old, n, pre.next, nil))
 	}
 	var gl []string
 	for name := range ghosts {
